@@ -8,7 +8,7 @@ from ..callgraph import callgraph
 from ..cfg import CFG, Node, cfg_of, edge_dominates, edges_dominate, must_reach, node_calls, node_dominates, nodes_dominate, path_to, reach
 from ..defuse import def_value, defs_of, derives_from, names_in, reaching_defs, resolve_alias
 from ..esp import UNKNOWN, STATE, run_function, valuations
-from ..model import AnalysisError, Func, Repo, ancestors, attr_chain, body_nodes, norm, short
+from ..model import AnalysisError, Func, Repo, ancestors, attr_chain, body_nodes, norm, parent, short
 
 CATS = ("create", "fix", "trim", "update")
 
@@ -677,6 +677,29 @@ def configure(repo: Repo, rep):
         rep.violation("R-CONFIGURE", f, fl[0].ast, "state().flags can be assigned before / without read_config(): the pyproject defaults are ignored on that path", construct="read_config-late")
     else:
         rep.ok("R-CONFIGURE", f, rc[0].ast, "read_config() precedes the use of the default flags")
+    # `--inline-snapshot=` / `--inline-snapshot=create,` : the empty items of the split are dropped (otherwise '' is an unknown flag and
+    # the session is refused, while the in-process driver of the testing helpers - which has its own parser - runs)
+    for sp_ in [x for x in body_nodes(f.node) if isinstance(x, ast.Call) and isinstance(x.func, ast.Attribute) and x.func.attr == "split" and "inline_snapshot" in norm(x.func.value) and x.args and isinstance(x.args[0], ast.Constant) and x.args[0].value == ","]:
+        holder = None
+        par_ = parent(sp_)
+        if isinstance(par_, ast.Assign) and len(par_.targets) == 1 and isinstance(par_.targets[0], ast.Name):
+            holder = par_.targets[0].id
+        filtered = False
+        for comp in [x for x in body_nodes(f.node) if isinstance(x, ast.comprehension)]:
+            src_ok = comp.iter is sp_ or (isinstance(comp.iter, ast.Name) and comp.iter.id == holder)
+            if src_ok and isinstance(comp.target, ast.Name) and any(any(isinstance(y, ast.Name) and y.id == comp.target.id for y in ast.walk(t)) for t in comp.ifs):
+                filtered = True
+        for x in body_nodes(f.node):
+            if isinstance(x, ast.Call) and isinstance(x.func, ast.Attribute) and x.func.attr in ("discard", "remove") and x.args and isinstance(x.args[0], ast.Constant) and x.args[0].value == "":
+                filtered = True
+            if isinstance(x, ast.Call) and norm(x.func) == "filter" and x.args and isinstance(x.args[0], ast.Constant) and x.args[0].value is None:
+                filtered = True
+            if isinstance(x, ast.BinOp) and isinstance(x.op, ast.Sub) and isinstance(x.right, ast.Set) and any(isinstance(e_, ast.Constant) and e_.value == "" for e_ in x.right.elts):
+                filtered = True
+        if filtered:
+            rep.ok("R-CONFIGURE", f, sp_, "empty items of the option are dropped")
+        else:
+            rep.violation("R-CONFIGURE", f, sp_, "the items of `--inline-snapshot=...` are used without dropping the empty ones: `--inline-snapshot=` (the empty set of categories) and a trailing comma give the unknown flag '' - the session is refused with a usage error instead of running with nothing approved", construct="empty-flag-items")
     # ... and it is the configuration of the *project*: the file handed to read_config() is searched from pytest's rootdir
     # (config.rootpath / inipath), not from where pytest happened to be started
     for n_ in rc:
@@ -1213,6 +1236,106 @@ def _abs_run(stmts, env: dict):
     return ("fall",)
 
 
+class _Unknown(Exception):
+    pass
+
+
+def _ctrl_eval(e: ast.AST, env: dict, np):
+    """evaluation of an expression of the xdist detector in the *controller* process: no config.workerinput, no PYTEST_XDIST_WORKER,
+    config.option.numprocesses == np (None: xdist installed but no -n; 0: `-n 0`; 2: `-n 2`).  Raises _Unknown for anything else."""
+    if isinstance(e, ast.Constant):
+        return e.value
+    if isinstance(e, ast.Name):
+        if e.id in env:
+            return env[e.id]
+        raise _Unknown()
+    if isinstance(e, ast.NamedExpr):
+        env[e.target.id] = _ctrl_eval(e.value, env, np)
+        return env[e.target.id]
+    if isinstance(e, ast.BoolOp):
+        v = None
+        for x in e.values:
+            v = _ctrl_eval(x, env, np)
+            if isinstance(e.op, ast.And) and not v:
+                return v
+            if isinstance(e.op, ast.Or) and v:
+                return v
+        return v
+    if isinstance(e, ast.UnaryOp) and isinstance(e.op, ast.Not):
+        return not _ctrl_eval(e.operand, env, np)
+    if isinstance(e, ast.IfExp):
+        return _ctrl_eval(e.body if _ctrl_eval(e.test, env, np) else e.orelse, env, np)
+    if isinstance(e, ast.Attribute):
+        if e.attr == "numprocesses":
+            return np
+        raise _Unknown()
+    if isinstance(e, ast.Call):
+        fn = norm(e.func)
+        a = e.args
+        if fn == "hasattr" and len(a) == 2 and isinstance(a[1], ast.Constant):
+            if a[1].value == "numprocesses":
+                return True
+            if a[1].value == "workerinput":
+                return False
+            raise _Unknown()
+        if (fn == "getattr" or fn.endswith(".getoption")) and a and isinstance(a[-1 if fn != "getattr" else 1], ast.Constant) or (fn == "getattr" and len(a) >= 2 and isinstance(a[1], ast.Constant)):
+            key = a[1].value if fn == "getattr" else a[0].value if isinstance(a[0], ast.Constant) else None
+            if key == "numprocesses":
+                return np
+            if key == "workerinput":
+                if len(a) >= 3:
+                    return _ctrl_eval(a[2], env, np)
+                raise _Unknown()
+            raise _Unknown()
+        if fn == "bool" and len(a) == 1:
+            return bool(_ctrl_eval(a[0], env, np))
+        if fn in ("os.environ.get", "os.getenv", "environ.get") and a and isinstance(a[0], ast.Constant) and a[0].value == "PYTEST_XDIST_WORKER":
+            return _ctrl_eval(a[1], env, np) if len(a) > 1 else None
+        raise _Unknown()
+    if isinstance(e, ast.Compare) and len(e.ops) == 1:
+        op = e.ops[0]
+        if isinstance(op, (ast.In, ast.NotIn)) and isinstance(e.left, ast.Constant) and e.left.value == "PYTEST_XDIST_WORKER":
+            return isinstance(op, ast.NotIn)
+        l, r = _ctrl_eval(e.left, env, np), _ctrl_eval(e.comparators[0], env, np)
+        try:
+            if isinstance(op, ast.Is):
+                return l is r
+            if isinstance(op, ast.IsNot):
+                return l is not r
+            if isinstance(op, ast.Eq):
+                return l == r
+            if isinstance(op, ast.NotEq):
+                return l != r
+            if isinstance(op, ast.Gt):
+                return l > r
+            if isinstance(op, ast.GtE):
+                return l >= r
+            if isinstance(op, ast.Lt):
+                return l < r
+            if isinstance(op, ast.LtE):
+                return l <= r
+        except TypeError:
+            raise _Unknown()
+    raise _Unknown()
+
+
+def _ctrl_run(stmts, env, np):
+    for st in stmts:
+        if isinstance(st, ast.Return):
+            return ("ret", _ctrl_eval(st.value, env, np) if st.value is not None else None)
+        if isinstance(st, ast.If):
+            r = _ctrl_run(st.body if _ctrl_eval(st.test, env, np) else st.orelse, env, np)
+            if r[0] != "fall":
+                return r
+        elif isinstance(st, ast.Assign) and len(st.targets) == 1 and isinstance(st.targets[0], ast.Name):
+            env[st.targets[0].id] = _ctrl_eval(st.value, env, np)
+        elif isinstance(st, (ast.Pass, ast.Import, ast.ImportFrom)) or (isinstance(st, ast.Expr) and isinstance(st.value, ast.Constant)):
+            continue
+        else:
+            raise _Unknown()
+    return ("fall",)
+
+
 def xdist_worker(repo: Repo, rep):
     rep.rule(
         "R-XDIST-WORKER",
@@ -1239,6 +1362,25 @@ def xdist_worker(repo: Repo, rep):
                 "a plain session is refused with 'can not be combined with xdist' / runs disabled, so approved fixes are not written",
                 construct="controller-indicator",
             )
+        # ... and what it answers there: no workers without -n and with `-n 0` (the documented way to switch xdist off for one run),
+        # workers with `-n 2`
+        try:
+            got = {np_: bool((_ctrl_run(f.node.body, {}, np_) + (None,))[1]) for np_ in (None, 0, 2)}
+            want = {None: False, 0: False, 2: True}
+            wrong = [k for k in want if got[k] != want[k]]
+            if wrong:
+                k = wrong[0]
+                rep.violation(
+                    "R-XDIST-WORKER",
+                    f,
+                    f.node,
+                    f"{f.qualname}() answers {got[k]} in the controller for numprocesses={k!r}" + (" (`pytest -n 0`, xdist switched off): every approved category is refused with 'can not be combined with xdist' although no worker is started" if k == 0 else ""),
+                    construct=f"controller-answer:{k!r}",
+                )
+            else:
+                rep.ok("R-XDIST-WORKER", f, f.node, "controller: no -n -> False, -n 0 -> False, -n 2 -> True")
+        except _Unknown:
+            pass  # outside the evaluated fragment: the clauses above / below stand
         r = _abs_run(f.node.body, {})
         reads = any((isinstance(x, ast.Attribute) and x.attr == "workerinput") or (isinstance(x, ast.Constant) and x.value in ("workerinput", "PYTEST_XDIST_WORKER")) for x in body_nodes(f.node))
         if r[0] == "ret" and r[1] is not None:
